@@ -212,6 +212,8 @@ def jobs(tier):
     for s in all_strings(1):
         add("mixed-sample-111-%s" % s, "per_sample", kind="mixed", n=1, h=1, a=1, strings=[s])
     add("mixed-batch-111", "batch", kind="mixed", n=1, h=1, a=1, data=[[0], [1], [1], [0]], bases=["X", "Z", "Y", "X"])
+    # two sites and two auxiliary units: the (aux x visible) block of the exact negative phase has a layout to get wrong
+    add("mixed-batch-212", "batch", kind="mixed", n=2, h=1, a=2, data=[[0, 1], [1, 1], [1, 0]], bases=["ZZ", "XZ", "ZZ"])
     if tier != "quick":
         for h in (1, 3):
             for s in all_strings(2):
